@@ -15,6 +15,9 @@ VERUS_UNITS = {
                     props=['C03', 'C05', 'C04', 'C02', 'C12']),
     'U-ENC-V': dict(module='contracts.verus.yaml_encoding', min_verified=15, timeout=600,
                     props=['C07', 'C02', 'C04', 'C05', 'C12', 'C01']),
+    'U-MP-X': dict(module='contracts.verus.msgpack_transcode', min_verified=24, timeout=600,
+                   native_search=dict(src='src/msgpack.rs', file='msgpack_search.rs'),
+                   props=['C03', 'C18', 'C04', 'C02']),
     'U-MAIN-V': dict(module='contracts.verus.cli_main', min_verified=5, timeout=600,
                      props=['C14', 'C03', 'C15', 'C13']),
     'U-CAP-V': dict(module='contracts.verus.input_capture', min_verified=18, timeout=600,
@@ -339,7 +342,7 @@ PROPERTIES = {
                      'prefix-comparability of partial outputs (all four are differences between two entry points of third-party crates; known from the property text, outside this technique)']),
     'C03': dict(
         explanation='Document cutting is an ordered partition: msgpack::transcode hands the output rest[..n] with n the exact size of the first value (Verus, unbounded; '
-                    'loop wiring by Kani with the proved contract substituted), consecutive, non-empty, covering the input; ChunkReader::take_to_offset / trim_to_offset '
+                    'loop wiring: Verus U-MP-X proves on the verbatim msgpack::transcode, against the proved next_value_size, that the documents offered to the output are exactly mp_split(input): successive complete values, in order, no gap, no overlap, for every input length; Kani U-MP-T runs the same loop against the real rmp_serde constructors), consecutive, non-empty, covering the input; ChunkReader::take_to_offset / trim_to_offset '
                     'return / keep exactly stream[start..o] / stream[o..delivered]. CLI: U-MAIN-V proves one translate call per input path, in order, on the one translator created before the loop. Verus (U-CHK-V) proves Chunker::next on the verbatim code for ALL event histories against an assumed libyaml '
                     'event contract: the k-th Some(Ok(doc)) is exactly stream[start_k..end_k] of the k-th document of the event history (no gap byte, no neighbour byte, kind of its first content event), '
                     'emitted exactly once and in order, None only after every completed document was emitted; documents of a monotone history are ordered disjoint intervals (theorem).',
@@ -453,11 +456,12 @@ PROPERTIES = {
                     '(and rmp::Marker::from_u8) compute exactly mp_value: Ok(n) iff the first value is complete, well-formed and nested at most d deep. '
                     'Lemmas: monotone in d; every shape of k collections (arrays, maps via value, maps via key) around a scalar is accepted iff k+1 <= d; '
                     'with DEPTH_LIMIT extracted from the source: 1023 accepted, 1024 rejected; rmp_value (assumed spec of rmp_serde) implies mp_value. '
-                    'Kani: the length readers assumed by Verus are proved on their real bodies; every slice-path deserializer gets set_max_depth(DEPTH_LIMIT).',
+                    'Kani: the length readers assumed by Verus are proved on their real bodies; every slice-path deserializer gets set_max_depth(DEPTH_LIMIT). '
+                    'Verus U-MP-X: every deserializer that msgpack::transcode offers to the output -- slice path and reader path, any number of documents -- carries set_max_depth(DEPTH_LIMIT) (precondition-contract on Output::transcode_from).',
         assumptions=['rmp_value is a hand transcription of rmp-serde 1.1.2 decode.rs (depth_count! on arrays, maps and ext); not machine-checked against the crate',
                      'JSON/YAML/TOML nesting limits are library defaults (not under contract)', 'process stack survival is not modelled'],
         not_covered=['JSON, YAML and TOML depth limits', 'stack safety of the real binary', 'reader-mode verdict is rmp_serde\'s own (assumed spec)',
-                     'set_max_depth on the reader-path and detection deserializers (constructions that cannot be driven without running rmp_serde)']),
+                     'set_max_depth on the two detection deserializers (match_input_buffer / match_input_reader; three-line functions, stubbed in U-MP-G)']),
 }
 
 
